@@ -297,6 +297,11 @@ func (l *localFS) KeysPrefix(_ context.Context, token, prefix, delimiter string,
 		prefix += "/"
 	}
 
+	if token == "" {
+		// a new listing never reuses the state left by an abandoned fetch loop
+		delete(l.glob, prefix)
+	}
+
 	// we cache the result for the duration of the fetch loop: during this period, localfs updates are not seen
 	search, ok := l.glob[prefix]
 	if !ok {
